@@ -395,6 +395,7 @@ fn check_quotes(w: &mut World, n: usize) -> VResult {
     let txn = doc.transact();
     let mut probes: Vec<&'static str> = Vec::new();
     let mut updates: Vec<(usize, String)> = Vec::new();
+    let mut softs: Vec<Violation> = Vec::new();
     for (qi, r) in w.mon.sticky.quotes.iter().enumerate() {
         let Some(lp) = link_ptr(&txn, &r.link) else { continue };
         let Some(src) = branch_of(&txn, &r.src, r.kind) else { continue };
@@ -427,13 +428,35 @@ fn check_quotes(w: &mut World, n: usize) -> VResult {
             // observers of a quotation are notified when content inside its range changes
             if let Some(last) = &r.last {
                 if *last != got && r.fired.load(Ordering::SeqCst) == 0 {
-                    return Err(viol(
-                        "weak.not-notified",
+                    // known finding F27 is identified by the change being a pure deletion (the
+                    // new content is a subsequence of the old one)
+                    let sep = if matches!(r.kind, Kind::Text | Kind::XmlText) { "" } else { "," };
+                    let (old_e, new_e): (Vec<String>, Vec<String>) = if sep.is_empty() {
+                        (last.chars().map(|c| c.to_string()).collect(), got.chars().map(|c| c.to_string()).collect())
+                    } else {
+                        (last.split(',').map(|x| x.to_string()).collect(), got.split(',').filter(|x| !x.is_empty()).map(|x| x.to_string()).collect())
+                    };
+                    let mut it = old_e.iter();
+                    let pure_deletion = new_e.len() < old_e.len() && new_e.iter().all(|x| it.any(|y| y == x));
+                    let v = viol(
+                        if pure_deletion {
+                            "weak.not-notified-on-delete"
+                        } else if !s_vis || !e_vis {
+                            // known finding F28: a boundary element of the range is deleted here
+                            "weak.not-notified-deleted-boundary"
+                        } else {
+                            "weak.not-notified"
+                        },
                         format!(
                             "node {}: the content of quotation {:?} changed from {:?} to {:?} but its observer was not notified",
                             n, r.link, last, got
                         ),
-                    ));
+                    );
+                    if pure_deletion || !s_vis || !e_vis {
+                        softs.push(v);
+                    } else {
+                        return Err(v);
+                    }
                 }
                 if *last != got {
                     probes.push("weak.notified-on-change");
@@ -467,6 +490,12 @@ fn check_quotes(w: &mut World, n: usize) -> VResult {
         }
     }
     drop(txn);
+    for mut v in softs {
+        if w.soft.len() < 4 {
+            v.at_eid = w.cur_eid;
+            w.soft.push(v);
+        }
+    }
     for (qi, got) in updates {
         w.mon.sticky.quotes[qi].last = Some(got);
         w.mon.sticky.quotes[qi].fired.store(0, Ordering::SeqCst);
@@ -517,7 +546,24 @@ fn create_quote(w: &mut World, n: usize, a: &[u64], s: &[String]) -> VResult {
         let off = |k: usize| -> u32 { vis[..k].iter().map(|i| units[*i].len(ok)).sum() };
         let su = &units[vis[start]];
         let eu = &units[vis[end]];
-        (kind, (su.client, su.clock), (eu.client, eu.clock), off(start), off(end), incl)
+        // An inclusive end is given as the offset of the last code unit of the last element
+        // (UTF-16 documents). In a byte-counting document the library maps the offset of the
+        // element's first byte to its first UTF-16 unit, which designates the whole element only
+        // if that is a single unit: an inclusive end on an astral character is not expressible there.
+        let hi = if incl {
+            match ok {
+                OffsetKind::Utf16 => off(end) + eu.len(ok) - 1,
+                OffsetKind::Bytes => {
+                    if eu.clocks > 1 {
+                        return Ok(());
+                    }
+                    off(end)
+                }
+            }
+        } else {
+            off(end)
+        };
+        (kind, (su.client, su.clock), (eu.client, eu.clock), off(start), hi, incl)
     };
     let key = format!("q{}", w.mon.sticky.n_links);
     w.mon.sticky.n_links += 1;
